@@ -526,12 +526,18 @@ FUNCS = [
                      ("range(len(A))", "List.range (List.length {A})"),
                      ("A[:B]", "List.take {B} {A}"),
                      ("A + '0'", "({A} ++ [false])"), ("A + '1'", "({A} ++ [true])")]),
+    dict(module="netconan/ip_anonymization.py", qual="IpAnonymizer.should_anonymize", name="should_anonymize",
+         sig="(nets : List Mask.Net) (ip_int : Nat) : Bool", run="Id.run ",
+         expr_rules=[("ipaddress.ip_address(A)", "{A}"), ("self._is_mask(A)", "is_mask {A}"),
+                     ("any([ip in n for n in self._preserve_addresses])", "nets.any (fun n => n.contains ip)")]),
+    dict(module="netconan/ip_anonymization.py", qual="IpV6Anonymizer.should_anonymize", name="should_anonymize6",
+         sig="(ip_int : Nat) : Bool", run="Id.run "),
     dict(module="netconan/ip_anonymization.py", qual="_anonymize_match", name="anonymize_match",
          sig="(h : Bits → Bool) (fam6 : Bool) (nets : List Mask.Net) (L B : Nat) (match_ : List Char) (undo_ip_anon : Bool) : Py.M (List Char)",
          skip_stmts=["logging.debug(A, B)", "logging.debug(A, B, C)"],
          expr_rules=[("anonymizer.make_addr(A)", "(if fam6 then IpText.parseV6 {A} else IpText.parseV4 {A})"),
                      ("int(ip)", "ip"),
-                     ("anonymizer.should_anonymize(A)", "(fam6 || Mask.shouldAnonymize nets {A})"),
+                     ("anonymizer.should_anonymize(A)", "(if fam6 then should_anonymize6 {A} else should_anonymize nets {A})"),
                      ("anonymizer.deanonymize(A)", "(← deanonymize h L B {A})"),
                      ("anonymizer.anonymize(A)", "(← anonymize h L B {A})"),
                      ("anonymizer.make_addr_from_int(A)", "{A}"),
@@ -636,7 +642,7 @@ FUNCS.append(
 GROUPS = {
     "SrcIp": dict(imports=["Netconan.Model.Py", "Netconan.Model.Mask", "Netconan.Model.IpText", "Netconan.Model.PyRegex"],
                   serves=["C01", "C02", "C03", "C04", "C05", "C06", "C17"],
-                  funcs=["is_mask", "anonymize_bits", "deanonymize_bits", "anonymize", "deanonymize", "seed_loop", "anonymize_match", "anonymize_ip_addr"]),
+                  funcs=["is_mask", "anonymize_bits", "deanonymize_bits", "anonymize", "deanonymize", "seed_loop", "should_anonymize", "should_anonymize6", "anonymize_match", "anonymize_ip_addr"]),
     "SrcSecrets": dict(imports=["Netconan.Model.PySecrets"], serves=["C07", "C08", "C09"],
                        funcs=["check_sensitive_item_format", "extract_enclosing_text", "anonymize_value"]),
     "SrcAs": dict(imports=["Netconan.Model.Py", "Netconan.Model.Words"], serves=["C11"],
